@@ -138,7 +138,7 @@ fn check_l1(c: &Case, cx: &mut Cx) -> Res {
 pub fn case_strategy() -> BoxedStrategy<Case> {
     (
         prop_oneof![2 => Just(None), 1 => zg::mzerv(false).prop_map(Some), 1 => zg::mzerv(true).prop_map(Some)],
-        prop_oneof![2 => Just(SchemaSel::Default), 3 => (0usize..22).prop_map(SchemaSel::Preset), 3 => zg::valid_schema().prop_map(SchemaSel::Ron)],
+        prop_oneof![2 => Just(SchemaSel::Default), 3 => (0usize..22).prop_map(SchemaSel::Preset), 3 => zg::valid_schema_p().prop_map(SchemaSel::Ron)],
         flags::version_flags(),
         any::<bool>(),
         proptest::option::weighted(0.2, prop_oneof![Just("v".to_string()), Just("release-".to_string()), gens::text::tame()]),
